@@ -218,7 +218,7 @@ def run_impl(prop, payload, extra_env=None, timeout=1800, tag=""):
         return json.load(fh)
 
 
-def run_impl_parallel(prop, cases, extra_env=None, chunk=None, timeout=1800):
+def run_impl_parallel(prop, cases, extra_env=None, chunk=None, timeout=1800, tag=""):
     """split the case list over processes; result order preserved"""
     if not cases:
         return []
@@ -226,7 +226,7 @@ def run_impl_parallel(prop, cases, extra_env=None, chunk=None, timeout=1800):
     chunk = chunk or max(1, (n + JOBS - 1) // JOBS)
     parts = [cases[i:i + chunk] for i in range(0, n, chunk)]
     with concurrent.futures.ThreadPoolExecutor(max_workers=JOBS) as ex:
-        futs = [ex.submit(run_impl, prop, {"cases": part}, extra_env, timeout, ".%d" % i) for i, part in enumerate(parts)]
+        futs = [ex.submit(run_impl, prop, {"cases": part}, extra_env, timeout, "%s.%d" % (tag, i)) for i, part in enumerate(parts)]
         out = []
         for f in futs:
             out.extend(f.result()["obs"])
